@@ -439,6 +439,18 @@ func (en *Engine) runUntilBranch(st *State) ([]*State, *Terminal, error) {
 			fr.env[x] = mkConv(en.eval(st, fr, x.X), x.Type())
 		case *ssa.TypeAssert:
 			xv := en.eval(st, fr, x.X)
+			if mi, ok := xv.(*MakeIfaceV); ok && x.CommaOk {
+				// dynamic type statically known
+				if _, isIface := x.AssertedType.Underlying().(*types.Interface); !isIface {
+					tt := x.Type().(*types.Tuple)
+					if types.Identical(mi.X.Type(), x.AssertedType) {
+						fr.env[x] = mkTuple([]Val{mi.X, boolV(true)})
+					} else {
+						fr.env[x] = mkTuple([]Val{zeroOf(tt.At(0).Type()), boolV(false)})
+					}
+					continue
+				}
+			}
 			if x.CommaOk {
 				tt := x.Type().(*types.Tuple)
 				fr.env[x] = mkTuple([]Val{
@@ -1107,6 +1119,28 @@ func decide(st *State, c Val) (bool, bool) {
 			if nonNilByConstruction(b.X) {
 				return false, true
 			}
+			// a slice known to have len >= 1 is not nil
+			if isSliceType(b.X.Type()) {
+				lk := "len(" + b.X.Key() + ")"
+				for _, f := range st.facts {
+					fb, ok := f.Cond.(*BinV)
+					if !ok {
+						continue
+					}
+					switch {
+					case fb.Op == token.LSS && !f.Pol && fb.X.Key() == lk:
+						if k, ok := constInt(fb.Y); ok && k >= 1 {
+							return false, true
+						}
+					case fb.Op == token.LSS && f.Pol && fb.Y.Key() == lk:
+						if k, ok := constInt(fb.X); ok && k >= 0 {
+							return false, true
+						}
+					case fb.Op == token.EQL && !f.Pol && fb.X.Key() == lk && isConstInt(fb.Y, 0):
+						return false, true
+					}
+				}
+			}
 		}
 		// x == K1 known, asking x == K2
 		if cy, ok := b.Y.(*ConstV); ok && cy.C != nil {
@@ -1197,4 +1231,12 @@ func findLoops(fn *ssa.Function) map[*ssa.BasicBlock]*loopInfo {
 		}
 	}
 	return out
+}
+
+func isSliceType(t types.Type) bool {
+	if t == nil {
+		return false
+	}
+	_, ok := t.Underlying().(*types.Slice)
+	return ok
 }
